@@ -22,7 +22,12 @@ namespace AIToolbox::Factored::Bandit {
             UCVE::Factor newCrossSum;
             UCVE::Factor newFactorCrossSum;
 
-            void beginRemoval(const GVE::Graph &, const GVE::Graph::FactorItList &, size_t);
+            // Variance bounds of the components that have already been
+            // completely eliminated (their final factors are out of the graph).
+            double finalMax = 0.0, finalMin = 0.0;
+            bool isFinal = false;
+
+            void beginRemoval(const GVE::Graph &, const GVE::Graph::FactorItList &, const GVE::Graph::Variables &, size_t);
             void initNewFactor();
             void beginCrossSum(size_t agentAction);
             void beginFactorCrossSum();
@@ -77,9 +82,12 @@ namespace AIToolbox::Factored::Bandit {
         return e.v[0] + std::sqrt((e.v[1] + x) * logtA12);
     };
 
-    void Global::beginRemoval(const GVE::Graph & graph, const GVE::Graph::FactorItList & factors, size_t currAgent) {
+    void Global::beginRemoval(const GVE::Graph & graph, const GVE::Graph::FactorItList & factors, const GVE::Graph::Variables & vNeighbors, size_t currAgent) {
         agent = currAgent;
-        x_u = x_l = 0.0;
+        isFinal = vNeighbors.size() == 0;
+        // The components we have already finished still add to the variance.
+        x_u = finalMax;
+        x_l = finalMin;
         // We use these iterators to skip the factors for this agent.
         auto skipIt = factors.cbegin(); const auto factorsEnd = factors.cend();
         for (auto it = graph.cbegin(); it != graph.cend(); ++it) {
@@ -195,6 +203,18 @@ namespace AIToolbox::Factored::Bandit {
     }
 
     bool Global::isValidNewFactor() {
+        if (isFinal && newFactor.size() > 0) {
+            // This factor leaves the graph: remember its variance range for
+            // the bounds of the components still to be eliminated.
+            double currMax = std::numeric_limits<double>::lowest();
+            double currMin = std::numeric_limits<double>::max();
+            for (const auto & entry : newFactor) {
+                currMax = std::max(currMax, entry.v[1]);
+                currMin = std::min(currMin, entry.v[1]);
+            }
+            finalMax += currMax;
+            finalMin += currMin;
+        }
         return newFactor.size() > 0;
     }
 
@@ -208,14 +228,27 @@ namespace AIToolbox::Factored::Bandit {
         auto & [action, value] = result;
         action.resize(A.size());
         value.setZero();
+        if (finalFactors.size() == 0) return;
+
+        // The exploration bonus is not additive over the disconnected
+        // components of the graph: we have to pick the best *combination* of
+        // their entries, so we cross-sum the final factors first (dropping
+        // dominated entries as we go).
+        const auto unwrap = +[](UCVE::Entry & entry) -> UCVE::V & {return entry.v;};
+        UCVE::Factor joint;
         for (const auto & fValue : finalFactors) {
+            joint = crossSumF(joint, fValue);
+            if (joint.size() > 1)
+                joint.erase(extractDominated(std::begin(joint), std::end(joint), unwrap), std::end(joint));
+        }
+        {
             auto & [maxV, maxA] = *max_element_unary(
-                std::begin(fValue),
-                std::end(fValue),
+                std::begin(joint),
+                std::end(joint),
                 [logtA12 = logtA12](const auto & v) { return computeValue(v, 0.0, logtA12); }
             ).first;
 
-            value += maxV;
+            value = maxV;
 
             // Add tags together
             for (size_t i = 0; i < maxA.first.size(); ++i)
